@@ -6,7 +6,14 @@ component-wise, helpers of the module through their single `return` with the
 arguments substituted, loops over a literal tuple through their unrolling, a
 local dict used only under constant keys as one local per key — so the
 verdicts do not depend on whether a step is written inline, in a local, in a
-loop, in a dict of components or in a helper method.
+loop, in a dict of components (display or comprehension over constant keys)
+or in a helper method.  When the function ends in several `return` statements
+(a guard clause or a dispatcher per way of calling it, whose variants the
+loader put back) every reachable one is held to R1-R5 for the cases of the
+azimuth (absent, 0, ordinary) that reach it, and every case must reach one;
+a result joined from the branches on the azimuth (`if azimuth is None: gs =
+... else: gs = ...; return gs`) is read with the common tail moved into the
+branches.
 
 R1  component roles (T-ROLE): heading is degrees clockwise from north, wind
     `u` is eastward and `v` northward, so the air-speed term added to the value
@@ -22,7 +29,11 @@ R3  both wind values are known NaN-free at the return on every path (must-
     are identified by the binding they come from, through copies and scalar
     conversions; a helper that returns the winds proves it if its own analysis
     does at its `return`, a helper that cannot return normally unless its
-    arguments are NaN-free proves it for them.
+    arguments are NaN-free proves it for them (a `*rest` parameter is the
+    tuple of the values this call passes, `*(a, b)` arguments written out,
+    constant slices of displays folded).  A test on the elements of a loop
+    that is not over a display, here or in a helper, is undecided, not a
+    violation.
 R4  altitude -> Pa -> hPa: the `pressure_level` of each wind interpolation is
     exactly ISA pressure(altitude) / 100 (algebraic comparison; module
     constants folded) for both components; interpolation coordinates receive
@@ -46,7 +57,8 @@ R6  every query interpolates both wind components in the dataset of *its*
     what can go stale): the program's own statements are executed on a model
     of the environment (calendar times that really normalise / round /
     format; `xr.open_dataset(path)` a handle of that path with or without a
-    time axis; `.isel` a slice of a handle; numbers opaque and finite): the
+    time axis; `.isel` a slice of a handle; numbers opaque and finite;
+    `*rest` / `**rest` parameters bound as Python binds them): the
     states the object reaches within three queries are explored breadth-first
     (equal states - same values, same sharing - once), and in every state
     every query time is asked, over times that separate what a cache key can
@@ -412,7 +424,12 @@ class NanRefusal:
             if (kind == 'nan' and not pol) or (kind == 'finite' and pol):
                 self.unknown.append(norm(e)[:80])
             return frozenset()
-        return frozenset(o for o in (F.origin(v, at) for v in vals) if o is not None)
+        os_ = [o for o in (F.origin(v, at) for v in vals) if o is not None]
+        for o in os_:
+            # the element of a loop that is not over a display (those are unrolled): which values it stands for is not known
+            if o[0] != 'param' and isinstance(o[1], int) and F.g.nodes[o[1]].kind == 'iter':
+                self.unknown.append(f'{norm(e)[:60]} (on the elements of `{norm(F.g.nodes[o[1]].stmt.iter)[:40]}`)')
+        return frozenset(os_)
 
     def _branch(self, node, lab, st):
         if node.kind == 'test':
@@ -473,12 +490,206 @@ def _arg_binder(callee, call):
     return bind.get
 
 
+def fold_display_slices(fn):
+    """`fn` (a private copy) with constant slices of tuple / list displays folded: `(a, b, c)[:2]` is `(a, b)`"""
+    def const(x):
+        if x is None:
+            return True, None
+        if isinstance(x, ast.UnaryOp) and isinstance(x.op, ast.USub) and isinstance(x.operand, ast.Constant) and type(x.operand.value) is int:
+            return True, -x.operand.value
+        if isinstance(x, ast.Constant) and type(x.value) is int:
+            return True, x.value
+        return False, None
+
+    class Fd(ast.NodeTransformer):
+        def visit_Subscript(self, n):
+            n = self.generic_visit(n)
+            if isinstance(n.value, (ast.Tuple, ast.List)) and isinstance(n.slice, ast.Slice) and isinstance(n.ctx, ast.Load) \
+                    and not any(isinstance(x, ast.Starred) for x in n.value.elts):
+                b = [const(x) for x in (n.slice.lower, n.slice.upper, n.slice.step)]
+                if all(ok for ok, _ in b) and b[2][1] != 0:
+                    return ast.copy_location(type(n.value)(n.value.elts[slice(*(v for _, v in b))], ast.Load()), n)
+            return n
+    fn = _cp(fn)
+    fn.body = [Fd().visit(st) for st in fn.body]
+    ast.fix_missing_locations(fn)
+    return fn
+
+
+def unroll_dict_comprehensions(fn):
+    """`fn` (a private copy) with `{k: f(k) for k in (a, b)}` over a tuple / list display of constants (one generator, no
+    filter, a plain name as target) replaced by the display `{a: f(a), b: f(b)}` - the definition of the construct"""
+    class S(ast.NodeTransformer):
+        def __init__(self, name, value):
+            self.name, self.value = name, value
+
+        def visit_Name(self, n):
+            return _cp(self.value) if n.id == self.name and isinstance(n.ctx, ast.Load) else n
+
+    class U(ast.NodeTransformer):
+        def visit_DictComp(self, n):
+            n = self.generic_visit(n)
+            g = n.generators[0]
+            if len(n.generators) == 1 and not g.ifs and not g.is_async and isinstance(g.target, ast.Name) \
+                    and isinstance(g.iter, (ast.Tuple, ast.List)) and g.iter.elts and all(isinstance(x, ast.Constant) for x in g.iter.elts) \
+                    and not any(isinstance(x, (ast.NamedExpr, ast.Lambda, ast.GeneratorExp, ast.ListComp, ast.SetComp, ast.DictComp))
+                                for y in (n.key, n.value) for x in ast.walk(y)):
+                ks = [S(g.target.id, x).visit(_cp(n.key)) for x in g.iter.elts]
+                vs = [S(g.target.id, x).visit(_cp(n.value)) for x in g.iter.elts]
+                return ast.copy_location(ast.Dict(ks, vs), n)
+            return n
+    fn = _cp(fn)
+    fn.body = [U().visit(st) for st in fn.body]
+    ast.fix_missing_locations(fn)
+    return fn
+
+
+def expand_star_displays(call):
+    """the call with `*(a, b)` / `*[a, b]` arguments written out (the original when there are none)"""
+    if not any(isinstance(x, ast.Starred) and isinstance(x.value, (ast.Tuple, ast.List)) for x in call.args):
+        return call
+    args = []
+    for x in call.args:
+        if isinstance(x, ast.Starred) and isinstance(x.value, (ast.Tuple, ast.List)) and not any(isinstance(y, ast.Starred) for y in x.value.elts):
+            args.extend(x.value.elts)
+        else:
+            args.append(x)
+    return ast.copy_location(ast.Call(call.func, args, call.keywords), call)
+
+
+def spread_varargs(callee, call):
+    """`callee` (a private copy) as this call runs it when it passes n surplus positional values to `*rest`: the
+    parameter becomes n positional parameters `rest__0 ..` and every read of `rest` the tuple display of them - a call
+    site fixes the arity, so `for w in rest` / `any(... for w in rest)` unroll like a loop over a display.  The callee
+    itself when it has no `*rest`; None when the call cannot be read that way (a `*` argument, `rest` rebound,
+    defaults that the surplus would shift)."""
+    a = callee.args
+    if a.vararg is None:
+        return callee
+    if any(isinstance(x, ast.Starred) for x in call.args):
+        return None
+    names = [p.arg for p in a.posonlyargs + a.args]
+    if isinstance(call.func, ast.Attribute) and names and names[0] in ('self', 'cls'):
+        names = names[1:]
+    n = len(call.args) - len(names)
+    rest = a.vararg.arg
+    if n < 0 or a.defaults or any(isinstance(x, ast.Name) and x.id == rest and not isinstance(x.ctx, ast.Load) for x in ast.walk(callee)):
+        return None
+    used = {x.id for x in ast.walk(callee) if isinstance(x, ast.Name)} | {p.arg for p in a.posonlyargs + a.args + a.kwonlyargs}
+    new = [f'{rest}__{i}' for i in range(n)]
+    if any(x in used for x in new):
+        return None
+    fn = _cp(callee)
+
+    class S(ast.NodeTransformer):
+        def visit_Name(self, x):
+            if x.id == rest:
+                return ast.copy_location(ast.Tuple([ast.Name(v, ast.Load()) for v in new], ast.Load()), x)
+            return x
+    fn.body = [S().visit(st) for st in fn.body]
+    fn.args.args = list(fn.args.args) + [ast.arg(v, None) for v in new]
+    fn.args.vararg = None
+    ast.fix_missing_locations(fn)
+    return fn
+
+
+def split_tails(fn, var):
+    """`fn` (a private copy) with the statements that follow a branch on `var` moved into the branches:
+    `if c: A else: B; T` is `if c: A; T else: B; T`, and likewise for a `match` on `var` with a catch-all case (a branch
+    that ends in `return` / `raise` does not get the tail).  That is what sequencing means, so the copy computes what
+    the function computes; in the copy every way of calling the function (per value of `var`) ends in a `return` of
+    its own, whose value has one definition.  None when there is nothing to move."""
+    fn = _cp(fn)
+    moved = []
+
+    def depends(e):
+        return any(isinstance(x, ast.Name) and x.id == var for x in ast.walk(e))
+
+    def ends(body):
+        return bool(body) and isinstance(body[-1], (ast.Return, ast.Raise, ast.Continue, ast.Break))
+
+    def with_tail(body, tail):
+        return go(list(body) + ([] if ends(body) else [_cp(t) for t in tail]))
+
+    def go(body):
+        for i, st in enumerate(body):
+            tail = body[i + 1:]
+            if isinstance(st, ast.If) and depends(st.test):
+                moved.extend(tail)
+                st.body = with_tail(st.body, tail)
+                st.orelse = with_tail(st.orelse, tail)
+                return body[:i + 1] if st.orelse else body[:i] + [st]     # (an empty `else` is no `else`)
+            if isinstance(st, ast.Match) and depends(st.subject) and st.cases and st.cases[-1].guard is None \
+                    and isinstance(st.cases[-1].pattern, ast.MatchAs) and st.cases[-1].pattern.pattern is None:
+                moved.extend(tail)
+                for c in st.cases:
+                    c.body = with_tail(c.body, tail)
+                return body[:i + 1]
+        return body
+    fn.body = go(fn.body)
+    if not moved:
+        return None
+    ast.fix_missing_locations(fn)
+    for x in ast.walk(fn):
+        for ch in ast.iter_child_nodes(x):
+            ch._parent = x
+    return fn
+
+
 def _run_ground_speed(ctx, m, gs, fn, callee_of):
-    F = ValueCase(fn, None, None, m.tree, callee_of)
-    rets = [n for n in walk_no_nested(fn) if isinstance(n, ast.Return) and n.value is not None]
-    if len(rets) != 1:
-        ctx.undecided('C16-R2', gs, 'return', f'{len(rets)} return statements')
-    ret = rets[0]
+    ALL_AZ = (None, 0.0, 90.0)
+
+    def prepare(fn):
+        F = ValueCase(fn, None, None, m.tree, callee_of)
+        if 'azimuth' not in F.params:
+            ctx.undecided('C16-R5', gs, 'azimuth', 'get_ground_speed no longer takes the optional azimuth')
+        cases = {}
+
+        def case(val):
+            if val not in cases:
+                try:
+                    cases[val] = ValueCase(fn, 'azimuth', val, m.tree, callee_of)
+                except Undecidable as ex:
+                    ctx.undecided('C16-R5', gs, f'heading when azimuth = {val}', str(ex))
+            return cases[val]
+        rets = [n for n in walk_no_nested(fn) if isinstance(n, ast.Return) and n.value is not None and F.node_of(n) is not None]
+        return F, case, rets
+
+    # The function may end in several `return` statements (a guard clause per way of calling it, a dispatcher over
+    # variants whose bodies the loader put back): every one of them that a call can reach is the result of some calls
+    # and is held to all the rules, for the cases of the azimuth (absent, 0, ordinary) that reach it; every case must
+    # reach one.  With a single `return` the three cases are all asked of it.  When a returned value is not one
+    # computation (`if azimuth is None: gs = ... else: gs = ...; return gs`) the function is read with the common tail
+    # moved into the branches on the azimuth, where each return has its own.
+    F, case, rets = prepare(fn)
+    if not rets:
+        ctx.undecided('C16-R2', gs, 'return', 'no return statement with a value')
+    if any(_find_norm(F, r.value, F.node_of(r))[0] is None for r in rets):
+        fn2 = split_tails(fn, 'azimuth')
+        if fn2 is not None:
+            F2, case2, rets2 = prepare(fn2)
+            if rets2 and all(_find_norm(F2, r.value, F2.node_of(r))[0] is not None for r in rets2):
+                fn, F, case, rets = fn2, F2, case2, rets2
+    if len(rets) == 1:
+        plan = [(rets[0], ALL_AZ)]
+    else:
+        plan = [(r, tuple(v for v in ALL_AZ if case(v).node_of(r) is not None)) for r in rets]
+        for r, az in plan:
+            if not az:
+                ctx.undecided('C16-R5', gs, norm(r)[:60], 'a return that none of the azimuth cases (absent, 0, ordinary) reaches')
+        for v in ALL_AZ:
+            if not any(v in az for _, az in plan):
+                ctx.undecided('C16-R5', gs, f'heading when azimuth = {v}', 'no return statement is reached')
+    for ret, az in plan:
+        _run_return(ctx, m, gs, fn, callee_of, F, case, ret, az, ALL_AZ)
+
+
+def _run_return(ctx, m, gs, fn, callee_of, F, case, ret, AZ, ALL_AZ):
+    """all rules on the value of one `return` of get_ground_speed, which the azimuth cases AZ reach"""
+    # (suffix of the messages when this is the result of some calls only)
+    some = '' if AZ == ALL_AZ else (' (the result when no azimuth is given)' if AZ == (None,) else
+                                   ' (the result when an azimuth is given)' if None not in AZ else
+                                   f' (the result when azimuth is {" / ".join("absent" if v is None else str(v) for v in AZ)})')
     at_ret = F.node_of(ret)
     args, hyp, at_h = _find_norm(F, ret.value, at_ret)
     if args is None:
@@ -488,18 +699,6 @@ def _run_ground_speed(ctx, m, gs, fn, callee_of):
     # A value that is bound once per branch of the heading selection (`air = ...` under `if azimuth is None` and under
     # `else`) is not one expression for all calls; it is one expression for each way the selection can go, so the
     # component is then read once per case of the azimuth (absent, 0, ordinary) on the graph pruned for that case.
-    if 'azimuth' not in F.params:
-        ctx.undecided('C16-R5', gs, 'azimuth', 'get_ground_speed no longer takes the optional azimuth')
-    AZ = (None, 0.0, 90.0)
-    cases = {}
-
-    def case(val):
-        if val not in cases:
-            try:
-                cases[val] = ValueCase(fn, 'azimuth', val, m.tree, callee_of)
-            except Undecidable as ex:
-                ctx.undecided('C16-R5', gs, f'heading when azimuth = {val}', str(ex))
-        return cases[val]
 
     def classify(Fc, e, at):
         sides = [(sd, _fold(Fc.resolve(sd, at, quiet=True))) for sd in (e.left, e.right)]
@@ -632,16 +831,27 @@ def _run_ground_speed(ctx, m, gs, fn, callee_of):
 
     # R3 NaN refusal: both wind values are known NaN-free at the return, on every path
     cache = {}
+    unread = []
 
     def helper(call, depth):
         callee = callee_of(call)
         if callee is None:
             return None
-        if id(callee) not in cache:
-            cfn = scalarize_local_dicts(unroll_literal_loops(callee))
-            nr_ = NanRefusal(ValueCase(cfn, None, None, m.tree, callee_of), helper, depth)
-            cache[id(callee)] = (cfn,) + nr_.summary()
-        cfn, rfree, pfree = cache[id(callee)]
+        call = expand_star_displays(call)
+        key = (id(callee), len(call.args) if callee.args.vararg is not None else None)
+        if key not in cache:
+            cfn = spread_varargs(callee, call)
+            if cfn is None:
+                cache[key] = None
+            else:
+                cfn = scalarize_local_dicts(unroll_dict_comprehensions(unroll_literal_loops(fold_display_slices(cfn))))
+                nr_ = NanRefusal(ValueCase(cfn, None, None, m.tree, callee_of), helper, depth)
+                cache[key] = (cfn,) + nr_.summary()
+                unread.extend(f'{u} in {callee.name}' for u in nr_.unknown)
+        if cache[key] is None:
+            unread.append(f'{norm(call)[:60]}: the values passed to *{callee.args.vararg.arg}')
+            return None
+        cfn, rfree, pfree = cache[key]
         return cfn, rfree, pfree, _arg_binder(cfn, call)
 
     nr = NanRefusal(F, helper)
@@ -657,9 +867,11 @@ def _run_ground_speed(ctx, m, gs, fn, callee_of):
     ok = not missing and len(comps) == 2
     if not ok and nr.unknown:
         ctx.undecided('C16-R3', gs, nr.unknown[0], 'a NaN test of a form that is not recognised')
+    if not ok and unread:
+        ctx.undecided('C16-R3', gs, unread[0], 'a NaN test in a helper whose subject cannot be identified')
     ctx.ob('C16-R3', gs, 'points outside the weather domain are refused', ok,
            'a NaN test on both wind components that raises precedes the return on every path' if ok else
-           (f"the wind component(s) {sorted(missing)} reach the result without a NaN test that raises on every path: "
+           (f"the wind component(s) {sorted(missing)} reach the result{some} without a NaN test that raises on every path: "
             'a point outside the data domain yields NaN instead of being refused'), line=ret.lineno)
 
     # R4 pressure level and coordinate roles
@@ -693,6 +905,9 @@ def _run_ground_speed(ctx, m, gs, fn, callee_of):
                    f'{kw} coordinate receives `{norm(v) if v is not None else None}`', line=c.lineno,
                    nontrivial=False)
     vars_ = sorted(''.join(sorted(_wind_vars(c.func.value))) or '?' for c in interps)
+    if '?' in vars_:
+        c = next(c for c in interps if not _wind_vars(c.func.value))
+        ctx.undecided('C16-R4', gs, norm(c.func.value)[:60], 'which dataset variable this interpolation reads is not a constant the value flow finds')
     ctx.ob('C16-R4', gs, f'interpolated variables {vars_}', vars_ == ['u', 'v'],
            "one interpolation each for 'u' and 'v'" if vars_ == ['u', 'v'] else 'wind variables read are not u and v',
            nontrivial=False)
@@ -967,16 +1182,24 @@ class QueryModel:
             elif recv is not None:
                 args.insert(0, recv)
         a = node.args
-        if a.vararg or a.kwarg:
-            raise Undecidable(f'{fi.qualname} takes *args / **kwargs')
         names = [x.arg for x in a.posonlyargs + a.args]
+        rest, rest_kw = (), {}
         if len(args) > len(names):
-            raise _Raised(f'TypeError: {fi.qualname} takes {len(names)} positional arguments', fi, node.lineno)
+            if a.vararg is None:
+                raise _Raised(f'TypeError: {fi.qualname} takes {len(names)} positional arguments', fi, node.lineno)
+            args, rest = args[:len(names)], tuple(args[len(names):])      # `*rest` is the tuple of the surplus values
         env = dict(zip(names, args))
         for k, v in kwargs.items():
             if k in env or k not in names + [x.arg for x in a.kwonlyargs]:
+                if a.kwarg is not None and k not in env:
+                    rest_kw[k] = v                                          # `**rest` is the dict of the surplus keywords
+                    continue
                 raise _Raised(f'TypeError: {fi.qualname} got an unexpected argument {k}', fi, node.lineno)
             env[k] = v
+        if a.vararg is not None:
+            env[a.vararg.arg] = rest
+        if a.kwarg is not None:
+            env[a.kwarg.arg] = rest_kw
         pos = a.posonlyargs + a.args
         for arg, d in list(zip(pos[len(pos) - len(a.defaults):], a.defaults)) + \
                 [(x, d) for x, d in zip(a.kwonlyargs, a.kw_defaults) if d is not None]:
@@ -1111,6 +1334,13 @@ class QueryModel:
             except Exception as ex:
                 raise _Raised(f'{type(ex).__name__}: {ex}', fi, e.lineno)
             return list(r) if isinstance(r, (range, enumerate, zip, reversed)) else r
+        if f.dotted in ('dataclasses.replace', 'copy.replace') and len(args) == 1 and isinstance(args[0], MObj) \
+                and not any(c.find_method(n) for c in args[0].ci.mro() for n in ('__init__', '__new__', '__post_init__', '__replace__')) \
+                and all(k in args[0].ci.all_fields() for k in kwargs):
+            o = MObj(args[0].ci)            # a record with the named fields changed: a new object, the others shared
+            o.attrs = dict(args[0].attrs)
+            o.attrs.update(kwargs)
+            return o
         if any(isinstance(x, MObj) for x in vals):
             raise Undecidable(f'`{norm(e)[:60]}` hands an object of the program to code outside it')
         if any(isinstance(x, (MFile, MSlice)) for x in vals):
@@ -2016,7 +2246,7 @@ def run(ctx):
     prog = ctx.prog
     m = prog.module(W)
     gs = m.func('Weather.get_ground_speed')
-    fn = scalarize_local_dicts(unroll_literal_loops(gs.node))
+    fn = scalarize_local_dicts(unroll_dict_comprehensions(unroll_literal_loops(gs.node)))
 
     def callee_of(call):
         """helpers of this module are followed; everything else is a primitive"""
